@@ -45,11 +45,14 @@
 //     non-interference oracles; fail makes Consume return an error (after recording).
 //   - connectors: the types in [ConnectorTypes] differ in the signal pairs their factory supports
 //     ("kconn" all 16, "ksame" the 4 same-signal pairs, "kl2m" logs→metrics only, ...). Config
-//     {mode: convert|mutate|pass, route_to: [pipeline ids]}: convert builds a new payload of the
-//     destination signal carrying tag and trail extended by "<id>[from>to]#<instance>"; mutate
-//     (same-signal only) extends the trail in place and declares MutatesData; pass (same-signal only)
-//     forwards the very same payload and records a visit. route_to restricts delivery to the named
-//     pipelines through the router's Consumer(ids...) API.
+//     {mode: convert|mutate|pass, routes: {<destination signal>: [pipeline ids]}}: convert builds a
+//     new payload of the destination signal carrying tag and trail extended by
+//     "<id>[from>to]#<instance>"; mutate (same-signal only) extends the trail in place and declares
+//     MutatesData; pass (same-signal only) forwards the very same payload and records a visit.
+//     routes makes it a routing connector: on every Consume it asks the router it was given for
+//     Consumer(ids...) with the ids exactly as written (repeated ids, unconnected pipelines and the
+//     empty route included); a refused route is recorded in [Env.RouteErrors], nothing is forwarded
+//     and Consume returns a "cannot route" error. See [RouteClasses] / [MakeRoute].
 //   - extension "kext": config {deps: [ids]} returned from Dependencies().
 //
 // # Configuration model and oracle
